@@ -50,7 +50,7 @@ def inventory(ctx):
 
 def run(ctx):
     ctx.rule = ("(a) in-process conversion of wild units of all 7 types (all keys x adversarial values, references, templates) and unit sets, and every single-separator damage (dropped, doubled, replaced, text beside it cut) of well-formed structured values of 60 keys; (b) byte-level mutations of the repository's example "
-                "files (tests/cases); (c) the real binary on trees with adversarial file names (non-UTF-8, leading '@', no stem, 255 bytes, newline), directories named like units, invalid UTF-8 contents, "
+                "files (tests/cases); (c) the real binary on trees with adversarial file names (non-UTF-8, leading '@', no stem, 255 bytes, newline) and non-UTF-8 directory names, directories named like units, invalid UTF-8 contents, "
                 "NUL bytes, [Install] sections with odd aliases; a panic is a PANIC line of the driver, exit status 101/134, a signal, or a timeout; non-trivial = every case; distinct = distinct inputs")
     rng = ctx.rng
     # (a) + (b) in-process
@@ -107,7 +107,7 @@ def run(ctx):
                 ctx.broken.append("correspondence panics: files=%s impl=%s model=%s" % ([(show(p), show(t)) for p, t in files], o[:80], m[:80]))
     ctx.oblig("correspondence: the model's Panic outcomes coincide with the implementation's panics on every in-process case", mism == 0, "%d mismatches" % mism)
     # (c) end to end with adversarial names and contents
-    names = [b"a\xff.container", b"@.container", b".container", b"x" * 245 + b".container", b"n\nl.container", b"t@.container", b"t@i.container", b"sp ace.volume",
+    names = [b"sub\xff/in-bad-dir.container", b"d\xc3/deep/x.volume", b"a\xff.container", b"@.container", b".container", b"x" * 245 + b".container", b"n\nl.container", b"t@.container", b"t@i.container", b"sp ace.volume",
              b"-dash.network", b"a.b.c.kube", b"dir.container/", b"\xe2\x82.pod", b"q\"uote.image", b"b s\\.build", b"%n.container", b"$HOME.container"]
     contents = ["[Container]\nImage=img\n", "[Container]\nImage=img\n[Install]\nAlias=/\nAlias=..\nWantedBy=a/b\n", b"[Container]\nImage=\xff\xfe\n", "[Container]\nImage=i\0mg\n",
                 "[Kube]\nYaml=/\nSetWorkingDirectory=yaml\n", "[Build]\nImageTag=t\nFile=\\x01\nSetWorkingDirectory=file\n", "[Volume]\n", "[Pod]\n", "[Container]\nImage=x.image\n",
@@ -121,6 +121,8 @@ def run(ctx):
             for nm in rng.sample(names, rng.randint(1, 5)):
                 p = os.path.join(root, b"u", nm.rstrip(b"/"))
                 try:
+                    if b"/" in nm.rstrip(b"/"):
+                        os.makedirs(os.path.dirname(p), exist_ok=True)
                     if nm.endswith(b"/"):
                         os.makedirs(p)
                     else:
@@ -159,7 +161,7 @@ def classify(files, msg):
 
 def classify_e2e(names, err):
     if "path is not a valid UTF-8 string" in err:
-        return "NonUtf8NamePanics"
+        return "NonUtf8DirPanics" if any(b"/" in n.rstrip(b"/") for n in names) else "NonUtf8NamePanics"
     if "parsing error" in err:
         return "NulInValuePanics"
     if "should have a parent directory" in err:
